@@ -11,7 +11,8 @@ PROP = {
     "technique": "Hypothesis RuleBasedStateMachine per block class with a pool of instances: construct (without items / with a fresh explicit list), decode (same bytes several times), add / remove / in-place edit on one instance, encode; invariant: every other instance's item identities and encoding are unchanged, a block constructed without items is empty",
     "level_text": ("Exploration of interleavings over 2..5 live instances of one block class. After every step a snapshot (item object "
                    "identities + encoding) of every instance that was not the target of the step is compared with the snapshot taken "
-                   "before; new instances made without items must be empty whatever happened to earlier ones."),
+                   "before; new instances made without items must be empty whatever happened to earlier ones. A second sub-check reads the same block "
+                   "twice through the file API (get_block, [], getters, blocks) and edits one copy."),
     "level_note": "Caller-side aliasing (handing one list or array to two constructors) is never generated. In-place edits that numpy refuses (read-only decoded arrays) count as no-ops.",
     "design_ref": "DESIGN.md section 5, C20",
     "rule": "case = {init, ops}; non-trivial = an instance is created after another one was mutated; distinct by sha1 of the history",
